@@ -171,10 +171,19 @@ def code_for_expr(expr: Any) -> cst.CSTNode:
     elif isinstance(value, code_ir.WithTagsCall):
       attr = daglish.Attr("item_to_tag")
       item_to_tag = state.call(value.item_to_tag, attr)
-      call_args = [cst.Arg(item_to_tag)]
       sorted_tags = sorted([tag for tag in value.tag_symbol_expressions])
-      for tag in sorted_tags:
-        tag_name = cst.parse_expression(tag)
+      tag_names = [cst.parse_expression(tag) for tag in sorted_tags]
+      if value.use_tag_new:
+        # Plain `fdl.Config` code: `TagA.new(TagB.new(value))`.
+        result = item_to_tag
+        for tag_name in reversed(tag_names):
+          result = cst.Call(
+              cst.Attribute(value=tag_name, attr=cst.Name("new")),
+              args=[cst.Arg(result)],
+          )
+        return result
+      call_args = [cst.Arg(item_to_tag)]
+      for tag_name in tag_names:
         call_args.append(cst.Arg(tag_name))
       with_tags = cst.parse_expression("auto_config.with_tags")
       return cst.Call(with_tags, args=call_args)
